@@ -496,7 +496,7 @@ def encode_values(vals):
     return ";".join(",".join("%02x" % b for b in v) for v in vals)
 
 
-def replay_native(inst, values, workdir, profiles=("dev", "release")):
+def replay_native(inst, values, workdir, profiles=("dev", "release"), feature=None):
     """Run the harness function natively as a #[test] (cfg replay), feeding it the solver's values."""
     cdir = crate_dir(inst.crate)
     out = {}
@@ -505,7 +505,7 @@ def replay_native(inst, values, workdir, profiles=("dev", "release")):
     env["RUSTFLAGS"] = "--cfg replay --cfg weechess_verif -Awarnings"
     env["VERIF_REPLAY"] = encode_values(values)
     mod, _, fn = inst.name.rpartition("::")
-    feature = mod.split("::")[0]
+    feature = feature or mod.split("::")[0]
     for prof in profiles:
         tdir = os.path.join(TARGET, "replay-" + inst.crate)
         cmd = ["cargo", "test", "--lib", "--features", feature, "--target-dir", tdir]
@@ -541,8 +541,8 @@ def replay_native(inst, values, workdir, profiles=("dev", "release")):
     return out
 
 
-def write_replay(path, pid, inst, r):
-    doc = {"property": pid, "harness": inst.name, "crate": inst.crate,
+def write_replay(path, pid, inst, r, feature=None):
+    doc = {"property": pid, "harness": inst.name, "crate": inst.crate, "feature": feature,
            "values_hex": encode_values(r.values or []), "failed": r.failed, "replay": r.replay,
            "repo_head": git_head(REPO),
            "how_to_rerun": "./check replay " + path}
@@ -557,7 +557,7 @@ def replay_file(path):
     vals = [[int(b, 16) for b in v.split(",")] for v in doc["values_hex"].split(";") if v]
     workdir = os.path.join(WORK, "replay")
     os.makedirs(workdir, exist_ok=True)
-    out = replay_native(inst, vals, workdir)
+    out = replay_native(inst, vals, workdir, feature=doc.get("feature"))
     rc = 0
     for prof, v in out.items():
         log("native %s: %s %s" % (prof, v["verdict"], v["panic"]))
@@ -715,12 +715,12 @@ def check(pid, plan, tier, only=None, seed=0, evidence=True):
                 r.reason = "reachability witness passed: harness is vacuous"
         if r.status == "fail":
             os.makedirs(REPLAYS, exist_ok=True)
-            r.replay = replay_native(i, r.values or [], workdir)
+            r.replay = replay_native(i, r.values or [], workdir, feature=plan["feature"])
             verdicts = {p: v["verdict"] for p, v in r.replay.items()}
             if "reproduced" in verdicts.values():
                 k = match_known(known, pid, r)
                 rp = os.path.join(REPLAYS, "%s-%s.json" % (pid, re.sub(r"[^A-Za-z0-9_]", "_", i.name)))
-                write_replay(rp, pid, i, r)
+                write_replay(rp, pid, i, r, plan["feature"])
                 if k:
                     r.known = k
                     known_hits.append((r, k))
